@@ -34,7 +34,8 @@ Cond == Op("INCMP") \/ Op("CATCH")            \* instructions that move conditio
 \* outcomes of the iteration if the conditional move were taken / not taken (used by the properties that
 \* speak about the EFFECT of moves, so that a wrong DECISION is charged to C03 / C06 only)
 Alts == IF Cond THEN {Step.s, Iter([Pre EXCEPT !.force = "take"]).s, Iter([Pre EXCEPT !.force = "skip"]).s} ELSE {Step.s}
-Judged == IsInstr /\ ~Step.panic
+\* a step that crashed in the real code is charged to C08 alone
+Judged == IsInstr /\ ~Step.panic /\ ~Ev.panic
 
 \* ---- C03: client input is routed by the first matching INCMP, once; no match -> catch with the input shown
 C03_Step == Judged /\ Op("INCMP") =>
@@ -68,13 +69,13 @@ C06_Ctl   == Judged /\ (Op("CATCH") \/ Op("CROAK")) =>
               /\ FlagProj(Step.s) = FlagProj(Post)
               /\ (~Ev.last => Step.s.code = Post.code)
               /\ (Ev.last <=> Step.done)
-C06_Blocked == IsInstr /\ ~Running => /\ Ev.ext = <<>> /\ Ev.last
+C06_Blocked == IsInstr /\ ~Running /\ ~Ev.panic => /\ Ev.ext = <<>> /\ Ev.last
                                       /\ NavProj(Post) = NavProj(Pre) /\ CacheProj(Post) = CacheProj(Pre)
                                       /\ FlagProj(Post) = FlagProj(Pre)
 
 \* ---- C08: no panic on anything a well-formed program and any input can cause; session stays consistent
 C08_NoPanic == Have /\ Ev.ev = "instr" => ~Ev.panic
-C08_Levels  == Judged /\ Levels(Pre) => Levels(Post)
+C08_Levels  == IsInstr /\ ~Step.panic /\ ~Ev.panic /\ Levels(Pre) => Levels(Post)
 C08_Account == IsInstr /\ Consistent(Pre.c) => Consistent(Post.c)
 
 \* ---- C18: the language changes exactly as the external results say
